@@ -11,6 +11,7 @@ import (
 	"time"
 
 	"github.com/ThreeDotsLabs/watermill"
+	"github.com/ThreeDotsLabs/watermill/components/forwarder"
 	"github.com/ThreeDotsLabs/watermill/message"
 	"github.com/ThreeDotsLabs/watermill/verifharness/lib"
 	"pgregory.net/rapid"
@@ -30,7 +31,7 @@ func TestMain(m *testing.M) {
 }
 
 type regOp struct {
-	Kind    string // "R" router-level, "H" add handler, "M" handler-level
+	Kind    string // "R" router-level, "H" add handler, "M" handler-level, "F" a forwarder component placed on this router with N middlewares of its own
 	Handler int    // for H and M
 	N       int    // number of middlewares in the call (1..2)
 }
@@ -40,6 +41,7 @@ type program struct {
 	Ops     []regOp
 	PubDecs []int // each entry = number of decorators in one AddPublisherDecorators call
 	SubDecs []int
+	Plugin  int // 1 = the decorators are registered by a RouterPlugin (plugins run when Run starts), 2 = that plugin also adds one more router-level middleware
 }
 
 func (p program) canon() string {
@@ -49,6 +51,9 @@ func (p program) canon() string {
 		fmt.Fprintf(&b, "%s%d.%d,", o.Kind, o.Handler, o.N)
 	}
 	fmt.Fprintf(&b, "|%v|%v", p.PubDecs, p.SubDecs)
+	if p.Plugin != 0 {
+		fmt.Fprintf(&b, "|plugin%d", p.Plugin)
+	}
 	return b.String()
 }
 
@@ -69,6 +74,8 @@ func run(p program) string {
 	var routerLevelSoFar []struct{ id, pos int }
 	pos := 0
 	order := map[int][]struct{ id, pos int }{}
+	var fwdSub *lib.ScriptSub
+	var fwdOrder []struct{ id, pos int }
 
 	mk := func(id int) message.HandlerMiddleware {
 		return func(h message.HandlerFunc) message.HandlerFunc {
@@ -121,7 +128,28 @@ func run(p program) string {
 				ms = append(ms, mk(mwID))
 			}
 			handles[o.Handler].AddMiddleware(ms...)
+		case "F":
+			// a component that puts its own handler on this router: what it was configured with belongs to that handler
+			var ms []message.HandlerMiddleware
+			for i := 0; i < o.N; i++ {
+				mwID++
+				pos++
+				fwdOrder = append(fwdOrder, struct{ id, pos int }{mwID, pos})
+				ms = append(ms, mk(mwID))
+			}
+			fwdSub = lib.NewScriptSub("")
+			if _, err := forwarder.NewForwarder(fwdSub, lib.NewScriptPub(""), watermill.NopLogger{}, forwarder.Config{Router: router, AckWhenCannotUnwrap: true, Middlewares: ms}); err != nil {
+				return "harness: " + err.Error()
+			}
 		}
+	}
+	pluginMW := 0
+	if p.Plugin == 2 {
+		// registered by the plugin when Run starts: after everything registered before Run, before any handler is started
+		mwID++
+		pos++
+		pluginMW = mwID
+		routerLevelSoFar = append(routerLevelSoFar, struct{ id, pos int }{mwID, pos})
 	}
 	// expected nesting = router-level + own, by global registration position
 	for idx := range added {
@@ -140,29 +168,42 @@ func run(p program) string {
 	// decorators
 	decID := 0
 	wantPub, wantSub := "", ""
-	for _, n := range p.PubDecs {
-		var ds []message.PublisherDecorator
-		for i := 0; i < n; i++ {
-			decID++
-			id := decID
-			wantPub += fmt.Sprintf("%d,", id)
-			ds = append(ds, message.MessageTransformPublisherDecorator(func(m *message.Message) {
-				m.Metadata.Set("pubdec", m.Metadata.Get("pubdec")+fmt.Sprintf("%d,", id))
-			}))
+	registerDecorators := func() {
+		for _, n := range p.PubDecs {
+			var ds []message.PublisherDecorator
+			for i := 0; i < n; i++ {
+				decID++
+				id := decID
+				wantPub += fmt.Sprintf("%d,", id)
+				ds = append(ds, message.MessageTransformPublisherDecorator(func(m *message.Message) {
+					m.Metadata.Set("pubdec", m.Metadata.Get("pubdec")+fmt.Sprintf("%d,", id))
+				}))
+			}
+			router.AddPublisherDecorators(ds...)
 		}
-		router.AddPublisherDecorators(ds...)
+		for _, n := range p.SubDecs {
+			var ds []message.SubscriberDecorator
+			for i := 0; i < n; i++ {
+				decID++
+				id := decID
+				wantSub += fmt.Sprintf("%d,", id)
+				ds = append(ds, message.MessageTransformSubscriberDecorator(func(m *message.Message) {
+					m.Metadata.Set("subdec", m.Metadata.Get("subdec")+fmt.Sprintf("%d,", id))
+				}))
+			}
+			router.AddSubscriberDecorators(ds...)
+		}
 	}
-	for _, n := range p.SubDecs {
-		var ds []message.SubscriberDecorator
-		for i := 0; i < n; i++ {
-			decID++
-			id := decID
-			wantSub += fmt.Sprintf("%d,", id)
-			ds = append(ds, message.MessageTransformSubscriberDecorator(func(m *message.Message) {
-				m.Metadata.Set("subdec", m.Metadata.Get("subdec")+fmt.Sprintf("%d,", id))
-			}))
-		}
-		router.AddSubscriberDecorators(ds...)
+	if p.Plugin == 0 {
+		registerDecorators()
+	} else {
+		router.AddPlugin(func(r *message.Router) error {
+			registerDecorators()
+			if pluginMW != 0 {
+				r.AddMiddleware(mk(pluginMW))
+			}
+			return nil
+		})
 	}
 	if len(added) == 0 {
 		return ""
@@ -197,6 +238,35 @@ func run(p program) string {
 			return fmt.Sprintf("violation: message of handler %q not acked (settled=%v)", p.Names[idx], ok)
 		}
 		subdecSeen[idx] = m.Metadata.Get("subdec")
+	}
+	if fwdSub != nil {
+		if !fwdSub.WaitSubs(1, lib.Live) {
+			return "harness: no subscription for the forwarder"
+		}
+		m := message.NewMessage("in", []byte("not an envelope"))
+		m.Metadata.Set("handler", "events_forwarder")
+		d, ok := fwdSub.Subs()[0].Emit(m, "", 0, lib.Live)
+		if !ok {
+			return "harness: router did not take the forwarder's message"
+		}
+		if acked, ok := d.Wait(2 * lib.Live); !ok || !acked {
+			return fmt.Sprintf("violation: message of the forwarder's handler not acked (settled=%v)", ok)
+		}
+		all := append(append([]struct{ id, pos int }{}, routerLevelSoFar...), fwdOrder...)
+		sort.Slice(all, func(i, j int) bool { return all[i].pos < all[j].pos })
+		var want []string
+		for _, e := range all {
+			want = append(want, fmt.Sprintf("enter %d", e.id))
+		}
+		for i := len(all) - 1; i >= 0; i-- {
+			want = append(want, fmt.Sprintf("leave %d", all[i].id))
+		}
+		mu.Lock()
+		got := strings.Join(traces["events_forwarder"], " ")
+		mu.Unlock()
+		if got != strings.Join(want, " ") {
+			return fmt.Sprintf("violation: the forwarder's handler ran [%s], expected [%s]", got, strings.Join(want, " "))
+		}
 	}
 	mu.Lock()
 	defer mu.Unlock()
@@ -320,6 +390,8 @@ func TestRandomRegistrations(t *testing.T) {
 			p.Names = append(p.Names, n)
 		}
 		added := map[int]bool{}
+		fwd := false
+		p.Plugin = rapid.SampledFrom([]int{0, 0, 1, 2}).Draw(t, "decoratorsViaPlugin")
 		nops := rapid.IntRange(0, 20).Draw(t, "registrations")
 		for len(p.Ops) < nops+nh {
 			notAdded := []int{}
@@ -328,8 +400,11 @@ func TestRandomRegistrations(t *testing.T) {
 					notAdded = append(notAdded, i)
 				}
 			}
-			k := rapid.IntRange(0, 3).Draw(t, "opKind")
+			k := rapid.IntRange(0, 4).Draw(t, "opKind")
 			switch {
+			case k == 4 && !fwd:
+				fwd = true
+				p.Ops = append(p.Ops, regOp{"F", 0, rapid.IntRange(1, 2).Draw(t, "n")})
 			case k == 0 && len(notAdded) > 0:
 				h := notAdded[rapid.IntRange(0, len(notAdded)-1).Draw(t, "addHandler")]
 				added[h] = true
